@@ -5,11 +5,11 @@ Model: `Model/Recovery.lean`, a macro-step machine over GENERATED facts (which s
 states a received ping resets from, where failure events land, whether the pump survives exceptions).  Its record space
 is finite, so one-step facts are kernel evaluations over the WHOLE space, lifted to fault scripts of any length by induction.
 The FULL statement ("after ANY finite fault pattern, a healthy network leads back to CONNECTED, and the pump never dies")
-is false on the current tree: findings D8a (a reset inside `_connect` kills the pump) and D8b (a discovery that coincides
-with a blackout parks the manager in ERROR_SPA_NOT_FOUND for good).  So:
+is false on the current tree: finding D8b (a discovery that coincides with a blackout parks the manager in
+ERROR_SPA_NOT_FOUND for good; D8a - a reset inside `_connect` killing the pump - was repaired by a `fix:` commit).  So:
   * `recovery_partial` proves recovery from every coherent record outside the decidable set `Stuck`;
-  * `stuck_never_recovers` shows `Stuck` is exactly the obstruction (tight), `stuck_reachable` that both kinds of stuck
-    record are reached by concrete fault scripts (the replays of the findings);
+  * `stuck_never_recovers` shows `Stuck` is exactly the obstruction (tight), `stuck_reachable` that such a record is reached by a
+    concrete fault script (the replay of the finding); `pump_immortal` is the full statement for the pump;
   * the time bound is the sum of bounds proved elsewhere (C06, C15, C01), as a numeral from the generated timing tables.
 -/
 import GeckoModel.Model.Recovery
@@ -62,24 +62,36 @@ theorem stuck_never_recovers (is : List In) (h : ∀ i ∈ is, i ∈ [In.ping tr
       rcases hi with rfl | rfl <;> decide
     exact ih (fun j hj => h j (by simp [hj])) (step s i) (step_mem_allR s hm i hall) h1.1
 
-/-- both kinds of stuck record are reachable (the replays of findings D8b and D8a): a blackout during the first
-discovery; a user reset that lands inside `_connect` -/
+/-- a stuck record is reachable (the replay of finding D8b): a blackout during the first discovery parks the manager
+in ERROR_SPA_NOT_FOUND, which nothing leaves -/
 theorem stuck_reachable :
-    Stuck (run init [.pumpTurn false]) = true ∧ (run init [.pumpTurn false]).st = "ERROR_SPA_NOT_FOUND" ∧
-    Stuck (run init [.pumpTurn true, .userReset true]) = true ∧ (run init [.pumpTurn true, .userReset true]).pump = false := by
+    Stuck (run init [.pumpTurn false]) = true ∧ (run init [.pumpTurn false]).st = "ERROR_SPA_NOT_FOUND" := by
   decide +kernel
 
-/-- FULL statement of "the sequence that drives reconnection never dies" — false today (D8a) -/
-def PumpImmortal : Prop := ∀ is : List In, (∀ i ∈ is, i ∈ allIn) → (run init is).pump = true
+/-- the only stuck records a fault script can reach are those parked in the spa-not-found state -/
+theorem stuck_only_not_found : ∀ s ∈ allR, Coherent s = true → s.pump = true → Stuck s = true → s.st = "ERROR_SPA_NOT_FOUND" := by
+  decide +kernel
 
-theorem pump_immortal_fails_today : ¬ PumpImmortal := by
-  intro h
-  have := h [.pumpTurn true, .userReset true] (by decide)
-  revert this; decide +kernel
+/-- one step never kills the pump (since the `fix:` commit that makes `_sequence_pump` survive exceptions; the generated
+fact `pumpCatchesExceptions` is what this evaluates) -/
+theorem pump_survives_step : ∀ s ∈ allR, s.pump = true → ∀ i ∈ allIn, (step s i).pump = true := by decide +kernel
 
-/-- the pump dies ONLY by a reset inside `_connect` -/
-theorem pump_dies_only_by_reset_in_connect : ∀ s ∈ allR, s.pump = true → ∀ i ∈ allIn, i ≠ .userReset true →
-    (step s i).pump = true := by decide +kernel
+/-- **the sequence that drives reconnection never dies** (FULL statement), for every fault script incl. resets that land
+inside `_connect` -/
+theorem pump_immortal (is : List In) (h : ∀ i ∈ is, i ∈ allIn) : (run init is).pump = true := by
+  have key : ∀ (is : List In), (∀ i ∈ is, i ∈ allIn) → ∀ s ∈ allR, s.pump = true → (run s is).pump = true := by
+    intro is
+    induction is with
+    | nil => intro _ s _ hp; exact hp
+    | cons i is ih =>
+      intro h s hs hp
+      have hi := h i (by simp)
+      exact ih (fun j hj => h j (by simp [hj])) (step s i) (step_mem_allR s hs i hi) (pump_survives_step s hs hp i hi)
+  exact key is h init (by decide +kernel) rfl
+
+/-- a reset that lands inside `_connect` is recovered from like any other reset -/
+theorem reset_in_connect_recovers :
+    connected (run (run init [.pumpTurn true, .userReset true]) healthySeq) = true := by decide +kernel
 
 /-- **an unreachable spa is reported**: from CONNECTED, a ping that stays unanswered beyond the not-responding timeout
 takes the manager out of CONNECTED -/
